@@ -16,7 +16,7 @@ Definition early_release_rstep (s : rstate) (x : nat) : option rstate :=
       match tst tk with
       | TSpawned => Some (mkRS (rcap s) (pred (rc s)) (rwg s) (upd_nth (rtasks s) k (mkTask TRunning (tpanics tk))) (rthreads s))
       | TRunning => Some (mkRS (rcap s) (rc s) (pred (rwg s)) (upd_nth (rtasks s) k (mkTask TDone (tpanics tk))) (rthreads s))
-      | TDone => None
+      | _ => None
       end
     | None => None
     end.
@@ -173,8 +173,8 @@ Proof.
 Qed.
 
 Example real_taskrunner_releases_on_panic :
-  let s0 := rexec 1 [[RSched true; RSchedNow false]] [0;0; 1;1] in
-  let s := rexec 1 [[RSched true; RSchedNow false]] [0;0; 1;1; 0] in
+  let s0 := rexec 1 [[RSched true; RSchedNow false]] [0;0; 1;1;1] in
+  let s := rexec 1 [[RSched true; RSchedNow false]] [0;0; 1;1;1; 0] in
   (rc s0, rc s, map rres (rthreads s), map tst (rtasks s)) = (0, 1, [[1; 1]%Z], [TDone; TSpawned]).
 Proof. vm_compute. reflexivity. Qed.
 
@@ -335,4 +335,40 @@ Qed.
 Example real_pool_create_panic_keeps_slot :
   let s := pexec 1 0 [[PGetX; PGet]] [0;0; 0;0;0] in
   (pcreated s, map pres (pthreads s), map pheld (pthreads s)) = (1, [[-2; 0]]%Z, [[0]]).
+Proof. vm_compute. reflexivity. Qed.
+
+(* (j) TaskRunner whose task epilogue runs in the other order: waitGroup.Done() first, then
+   <-limitChan (class "order of deferred epilogues"). *)
+Definition done_first_rstep (s : rstate) (x : nat) : option rstate :=
+  let N := length (rthreads s) in
+  if Nat.ltb x N then rstep s x
+  else
+    let k := x - N in
+    match nth_error (rtasks s) k with
+    | Some tk =>
+      match tst tk with
+      | TRunning =>
+        Some (mkRS (rcap s) (rc s) (pred (rwg s)) (upd_nth (rtasks s) k (mkTask TReleased (tpanics tk))) (rthreads s))
+      | TReleased =>
+        Some (mkRS (rcap s) (pred (rc s)) (rwg s) (upd_nth (rtasks s) k (mkTask TDone (tpanics tk))) (rthreads s))
+      | _ => rstep s x
+      end
+    | None => None
+    end.
+
+(* n = 1: the task is between its two epilogue steps; Wait returns (result 1) although the slot
+   is still taken, and the ScheduleImmediately that follows on the "idle" runner is refused *)
+Theorem done_first_wait_not_idle_refuted :
+  exists n scripts sched,
+    let s := run done_first_rstep (rinit n scripts) sched in
+    map rres (rthreads s) = [[1; 1; 0]%Z] /\ rc s = n /\ 0 < n.
+Proof.
+  exists 1, [[RSched true; RWait; RSchedNow false]], [0;0; 1;1; 0;0; 0].
+  vm_compute. repeat split; auto.
+Qed.
+
+(* the real order: in the same schedule Wait stays blocked between the two steps *)
+Example real_taskrunner_wait_after_release :
+  let s := rexec 1 [[RSched true; RWait; RSchedNow false]] [0;0; 1;1; 0;0; 0] in
+  (map rres (rthreads s), map rpcof (rthreads s), rc s, rwg s) = ([[1]%Z], [RWaitingWg], 0, 1).
 Proof. vm_compute. reflexivity. Qed.
